@@ -402,6 +402,10 @@ def run(c, chk):
             k = K.get(r, ['?'])
             if ln == len(text) and all(x.startswith('return(8,begin0,') and 'trimmed-buffer' in x for x in k):
                 continue
+            # a rule that is active in INITIAL only and changes no start condition leaves the scanner in INITIAL just the same
+            only_initial = set(dfa.rule_conditions().get(r, ())) == {'INITIAL'}
+            if ln == len(text) and only_initial and all(x.startswith('return(8,') and 'begin' not in x and 'trimmed-buffer' in x for x in k):
+                continue
             chk.fail('R3.5', 'comment:%r' % text[:2], 'src/lexer.l:%d' % dfa.rule_line.get(r, 0),
                      'one-line comment %r selects %s over %d byte(s) with effect %s' % (text, lex.rule_name(r), ln, k))
     r, ln = dfa.match('INITIAL', b'/* c */')
